@@ -45,4 +45,101 @@ theorem lookupStep_chain (gdef : OT.Gdef) (alt : Nat) (lookups : List OT.Lookup)
     | none => simpa using ih
     | some ps => rfl
 
+/-! ### `try_merge` -/
+
+theorem matchCtx_single (ign : Glyph → Bool) (back look : List (Glyph → Bool)) (p : Glyph → Bool)
+    (rev : List Glyph) (g : Glyph) (suf : List Glyph) :
+    matchCtx ign back [p] look rev g suf =
+      if p g && (matchFwd ign look ((g :: suf).drop 1) 0).isSome && (matchFwd ign back rev 0).isSome then some [0] else none := by
+  simp only [matchCtx, matchInput, matchFwd]
+  cases hp : p g
+  · simp
+  · simp [matchEnd]
+
+theorem recs_single (c : GC) (ls : List LookupId) : (CRule.recs ⟨b, [(c, ls)], l⟩) = ls.map fun x => (0, x.gsubIdx) := by
+  simp [CRule.recs, List.zipIdx]
+
+theorem otTry_merged (ign : Glyph → Bool) (nested : Nat → Option Step) (rev : List Glyph) (g : Glyph) (suf : List Glyph)
+    (back look : List GC) (c1 c2 : GC) (ls : List LookupId) :
+    otTry ign nested rev g suf ⟨back, [(.c (c1.glyphs ++ c2.glyphs), ls)], look⟩
+      = (otTry ign nested rev g suf ⟨back, [(c1, ls)], look⟩).orElse
+          fun _ => otTry ign nested rev g suf ⟨back, [(c2, ls)], look⟩ := by
+  simp only [otTry, List.map_cons, List.map_nil, matchCtx_single, recs_single]
+  have hh : (GC.c (c1.glyphs ++ c2.glyphs)).has g = (c1.has g || c2.has g) := by
+    simp [GC.has, GC.glyphs, List.contains_append]
+  rw [hh]
+  cases h1 : c1.has g <;> cases h2 : c2.has g <;>
+    cases (matchFwd ign (look.map GC.has) ((g :: suf).drop 1) 0).isSome <;>
+    cases (matchFwd ign (back.map GC.has) rev 0).isSome <;> simp
+
+theorem findSome_append_singleton {α β : Type} (f : α → Option β) (l : List α) (a : α) :
+    (l ++ [a]).findSome? f = (l.findSome? f).orElse fun _ => f a := by
+  induction l with
+  | nil => simp
+  | cons x l ih =>
+    simp only [List.cons_append, List.findSome?_cons, ih]
+    cases f x <;> simp
+
+theorem eq_dropLast_append {α : Type} (l : List α) (a : α) (h : l.getLast? = some a) : l = l.dropLast ++ [a] := by
+  induction l with
+  | nil => simp at h
+  | cons x l ih =>
+    cases l with
+    | nil => simp at h; simp [h]
+    | cons y l =>
+      have : (y :: l).getLast? = some a := by simpa [List.getLast?_cons_cons] using h
+      have := ih this
+      simp only [List.dropLast_cons_cons, List.cons_append]
+      rw [← this]
+
+/-- adding a rule with `try_merge` does not change the first match -/
+theorem findSome_addCRule (ign : Glyph → Bool) (nested : Nat → Option Step) (rev : List Glyph) (g : Glyph) (suf : List Glyph)
+    (crs : List CRule) (r : CRule) :
+    (addCRule crs r).findSome? (otTry ign nested rev g suf) = (crs ++ [r]).findSome? (otTry ign nested rev g suf) := by
+  unfold addCRule
+  cases hl : crs.getLast? with
+  | none => rfl
+  | some last =>
+    have hcrs : crs = crs.dropLast ++ [last] := eq_dropLast_append crs last hl
+    simp only
+    obtain ⟨lb, li, ll⟩ := last
+    obtain ⟨rb, ri, rl⟩ := r
+    match li, ri with
+    | [(c1, l1)], [(c2, l2)] =>
+      simp only
+      split
+      · rename_i hc
+        simp only [Bool.and_eq_true, beq_iff_eq] at hc
+        obtain ⟨⟨hb, hlk⟩, hls⟩ := hc
+        subst hb hlk hls
+        rw [findSome_append_singleton, otTry_merged]
+        conv => rhs; rw [hcrs]
+        rw [List.append_assoc, List.findSome?_append]
+        simp only [List.cons_append, List.nil_append, List.findSome?_cons, List.findSome?_nil]
+        cases crs.dropLast.findSome? (otTry ign nested rev g suf) with
+        | some x => simp
+        | none =>
+          cases otTry ign nested rev g suf ⟨lb, [(c1, l1)], ll⟩ with
+          | some y => simp
+          | none =>
+            simp
+            cases otTry ign nested rev g suf ⟨lb, [(c2, l1)], ll⟩ <;> rfl
+      · rfl
+    | [], _ => rfl
+    | [_], [] => rfl
+    | [_], _ :: _ :: _ => rfl
+    | _ :: _ :: _, _ => rfl
+
+theorem findSome_foldl_addCRule (ign : Glyph → Bool) (nested : Nat → Option Step) (rev : List Glyph) (g : Glyph) (suf : List Glyph)
+    (raws : List CRule) :
+    ∀ (crs : List CRule), (raws.foldl addCRule crs).findSome? (otTry ign nested rev g suf)
+      = (crs ++ raws).findSome? (otTry ign nested rev g suf) := by
+  induction raws with
+  | nil => intro crs; simp
+  | cons r raws ih =>
+    intro crs
+    simp only [List.foldl_cons]
+    rw [ih, List.findSome?_append, findSome_addCRule, ← List.findSome?_append]
+    simp
+
 end Fontc.FeaCompile
